@@ -8,13 +8,13 @@ from vf.core import digest
 from vf.gen import gen_data
 from vf.spec import S, build, short
 
-SHARDS = {"quick": 6, "thorough": 16}
+SHARDS = {"quick": 16, "thorough": 16}
 WATCHDOG = {"quick": 1200, "thorough": 7200}
 CASES = {"quick": 60, "thorough": 500}   # detector cases per shard (grid is split separately)
 FLOORS = {
-    "quick": {"distinct_nontrivial": 350, "grid_points": 800, "detector_fits": 150,
-              "tuned_fits": 40, "pelt_ladders": 40, "K6_evaluations": 1000},
-    "thorough": {"distinct_nontrivial": 3000, "grid_points": 3000, "detector_fits": 3000},
+    "quick": {"distinct_nontrivial": 630, "grid_points": 600, "detector_fits": 380,
+              "tuned_fits": 100, "pelt_ladders": 190, "K6_evaluations": 4300},
+    "thorough": {"distinct_nontrivial": 3000, "grid_points": 8000, "detector_fits": 3000},
 }
 ANCHORS = [
     "skchange.anomaly_detectors.mvcapa.capa_penalty",
@@ -52,6 +52,10 @@ ASSUMPTIONS = ["relative tolerance 1e-12 on formulas",
 
 GRID = list(itertools.product([2, 3, 5, 10, 100, 1000, 100000], [1, 2, 3, 5, 10, 50],
                               [1, 2, 3, 5], [0.0, 0.5, 1.0, 2.0, 7.0]))
+GRID_THOROUGH = list(itertools.product(
+    [2, 3, 4, 5, 6, 7, 8, 10, 17, 64, 100, 1000, 10 ** 4, 10 ** 5, 10 ** 6],
+    [1, 2, 3, 4, 5, 6, 7, 8, 10, 12, 20, 50, 100, 300],
+    [1, 2, 3, 4, 5, 6], [0.0, 1e-3, 0.5, 1.0, 2.0, 7.0, 100.0]))
 
 
 def _eq(a, b, rel=1e-12):
@@ -374,8 +378,11 @@ def exec_case(ctx, r):
 
 def run(ctx):
     I.install()
-    for i in range(ctx.shard, len(GRID), ctx.nshards):
-        n, p, k, s = GRID[i]
+    grid = GRID if ctx.tier == "quick" else GRID_THOROUGH
+    # a shard walks a contiguous block of the grid, so that the same (n, p, k) is asked with all
+    # scales one after the other in one process (stale-cache bugs show only then)
+    per = -(-len(grid) // ctx.nshards)
+    for n, p, k, s in grid[ctx.shard * per:(ctx.shard + 1) * per]:
         exec_case(ctx, {"kind": "grid", "n": n, "p": p, "k": k, "s": s})
     for _ in range(CASES[ctx.tier]):
         exec_case(ctx, make_det_recipe(ctx.rng, ctx.tier))
